@@ -1,5 +1,354 @@
-"""stub"""
+"""C02 — layout, comments, line ends and packaging never change what is parsed (DESIGN.md §4 C02)."""
+from __future__ import annotations
+
+import ast
+import codecs
+
+from ..core import guards
+from ..core import pyfacts as pf
+from ..core.defuse import is_identity
+from ..core.larkfacts import SymAlphabet, ebnf_regex, grammar_facts
+from ..core.match import txt
+from ..core.rx import Rx, includes, witness_common, witness_not_in
 from ..core.source import AnchorMissing
-PROP="C02"
+from .common import DEC, DECGRAMMAR, ENUMS, ckey, enclosing, fn, stmt_of, where
+
+PROP = "C02"
+FILES = [DEC, DECGRAMMAR, ENUMS]
+EXPLANATION = (
+    "Premises of the layout lemma (DESIGN.md C02), each decided from Lark's compiled grammar or from the constructor's "
+    "CFG: P1 layout terminals are %ignored or filtered from trees; P2 every rule is closed under repeating _NEWLINE / "
+    "_SEMICOLON / _COMMA (language inclusion of the rule's EBNF with X replaced by X+); P3 _NEWLINE ⊇ LF|CRLF + "
+    "indentation ∪ comments, COMMENT stops before the line break, WS_INLINE ⊇ blanks/tabs; P4 no tree-visible terminal "
+    "or model name contains a layout character; P5 start accepts leading newlines and an optional final End; P6 a "
+    "leading BOM of an input file cannot reach the parser; P7 the file loop writes every line except lone End lines "
+    "and a line break per file; P8 the parsed text is only ever set by the two constructors.")
+NOT_DECIDED = ["the lemma's conclusion as an equality of query answers (needs execution)", "behaviour on ill-formed input"]
+G = DECGRAMMAR
+GP = f"src/decaylanguage/{DECGRAMMAR}"
+LAYOUT_T = ("_NEWLINE", "_COMMA", "_SEMICOLON")
+LAYOUT_CHARS = [" ", "\t", "\r", "\n", "#", ",", ";"]
+
+
 def run(ctx, ss):
-    raise AnchorMissing("rules not built yet")
+    for r, f in (("C02.1", p1), ("C02.2", p2), ("C02.3", p3), ("C02.4", p4), ("C02.5", p5),
+                 ("C02.6", p6), ("C02.7", p7), ("C02.8", p8)):
+        ctx.guard(r, f, ss)
+
+
+def p1(ctx, ss):
+    gf = grammar_facts(ss, G)
+    for t in ("WS_INLINE", "COMMENT"):
+        if t in gf.ignore:
+            ctx.holds("C02.1", f"{G}:ignore:{t}", GP, f"{t} is %ignore'd", 1)
+        else:
+            ctx.violation("C02.1", f"{G}:ignore:{t}", GP, f"{t} is no longer %ignore'd: spacing/comments between tokens become syntax errors or tokens")
+    for t in LAYOUT_T:
+        if t not in gf.terminals:
+            raise AnchorMissing(f"terminal {t} not found")
+        occ = [s for r in gf.rules for s in r.expansion if s.is_term and s.name == t]
+        if occ and all(getattr(s, "filter_out", False) for s in occ):
+            ctx.holds("C02.1", f"{G}:filtered:{t}", GP, f"{t} is filtered out of every tree ({len(occ)} occurrences in the compiled rules)", len(occ))
+        else:
+            ctx.violation("C02.1", f"{G}:filtered:{t}", GP, f"{t} is kept in parse trees ({len(occ)} occurrences): layout becomes visible to the queries")
+    # no other terminal may be ignored (it would silently drop content)
+    extra = [t for t in gf.ignore if t not in ("WS_INLINE", "COMMENT")]
+    if extra:
+        ctx.violation("C02.1", f"{G}:ignore:extra", GP, f"additional %ignore'd terminals {extra}: content characters are dropped")
+    else:
+        ctx.holds("C02.1", f"{G}:ignore:extra", GP, "nothing else is ignored", 1)
+
+
+def p2(ctx, ss):
+    gf = grammar_facts(ss, G)
+    n = 0
+    for name, (params, tree, opts) in gf.rule_defs.items():
+        name = str(name)
+        alpha = SymAlphabet()
+        base = ebnf_regex(tree, alpha)
+        used = [t for t in LAYOUT_T if f"T:{t}" in alpha.map]
+        if not used:
+            continue
+        for t in used:
+            n += 1
+            letter = alpha.map[f"T:{t}"]
+            rep = ebnf_regex(tree, alpha, {f"T:{t}": f"(?:{letter})+"})
+            wit = includes(Rx(base), Rx(rep))
+            k = f"{G}:{name}:{t}"
+            if wit is None:
+                ctx.holds("C02.2", k, GP, f"rule `{name}` accepts any number of {t} wherever it accepts one", 2)
+            else:
+                inv = {v: kk for kk, v in alpha.map.items()}
+                ws = " ".join(inv.get(c, c).split(":", 1)[1] for c in wit)
+                ctx.violation("C02.2", k, GP, f"rule `{name}` accepts one {t} but not a run of them: child sequence [{ws}] is rejected "
+                              "(a blank line / comment line / doubled separator at that place changes the parse)")
+    ctx.count("rule_terminal_pairs", n)
+    # the places where the listed layout edits happen must accept the separator at all
+    need = {"start": ["_NEWLINE"], "decay": ["_NEWLINE"], "decayline": ["_NEWLINE"], "model": ["_SEMICOLON"],
+            "model_options": ["_NEWLINE", "_COMMA"]}
+    for name, ts in need.items():
+        if name not in gf.rule_defs:
+            raise AnchorMissing(f"rule {name} not found")
+        alpha = SymAlphabet()
+        ebnf_regex(gf.rule_defs[name][1], alpha)
+        for t in ts:
+            k = f"{G}:{name}:{t}:present"
+            if f"T:{t}" in alpha.map:
+                ctx.holds("C02.2", k, GP, f"rule `{name}` accepts {t}", 1)
+            else:
+                ctx.violation("C02.2", k, GP, f"rule `{name}` no longer accepts {t} (line wrapping / separators / terminators at that place are rejected)")
+    # a parameter list may be wrapped over lines and separated by commas anywhere after its first item
+    alpha = SymAlphabet()
+    v, l, nl, c = alpha.letter("N:value"), alpha.letter("T:LABEL"), alpha.letter("T:_NEWLINE"), alpha.letter("T:_COMMA")
+    rx = ebnf_regex(gf.rule_defs["model_options"][1], alpha)
+    wit = includes(Rx(rx), Rx(f"(?:{v}|{l})(?:{v}|{l}|{nl}|{c})*"))
+    if wit is None:
+        ctx.holds("C02.2", f"{G}:model_options:wrapping", GP, "model_options ⊇ item (item | _NEWLINE | _COMMA)*", 2)
+    else:
+        inv = {vv: kk for kk, vv in alpha.map.items()}
+        ctx.violation("C02.2", f"{G}:model_options:wrapping", GP,
+                      f"a wrapped / comma-separated parameter list [{' '.join(inv.get(ch, ch).split(':', 1)[1] for ch in wit)}] is rejected")
+
+
+def p3(ctx, ss):
+    gf = grammar_facts(ss, G)
+    nl = Rx(gf.term_regex("_NEWLINE"))
+    cm = Rx(gf.term_regex("COMMENT"))
+    ws = Rx(gf.term_regex("WS_INLINE"))
+    for tag, ref, msg in (("lf", r"\n[\t ]*", "LF + indentation"), ("crlf", r"\r\n[\t ]*", "CRLF + indentation"),
+                          ("comment", r"#[^\n]*", "a comment up to the line end")):
+        wit = includes(nl, Rx(ref))
+        if wit is None:
+            ctx.holds("C02.3", f"{G}:_NEWLINE:{tag}", GP, f"_NEWLINE ⊇ {msg}", nl.n_states())
+        else:
+            ctx.violation("C02.3", f"{G}:_NEWLINE:{tag}", GP, f"_NEWLINE no longer matches {msg}: witness {wit!r}", nl.n_states())
+    wit = includes(cm, Rx(r"#[^\n]*"))
+    if wit is None:
+        ctx.holds("C02.3", f"{G}:COMMENT:covers", GP, "COMMENT ⊇ '#' followed by anything up to the line end", cm.n_states())
+    else:
+        ctx.violation("C02.3", f"{G}:COMMENT:covers", GP, f"COMMENT no longer matches {wit!r}", cm.n_states())
+    eats = witness_common(cm, Rx(r"[^\n]*\n(?:.|\n)*"))
+    if eats is None:
+        ctx.holds("C02.3", f"{G}:COMMENT:stops", GP, "COMMENT never contains a line break (the statement terminator after a comment survives)", cm.n_states())
+    else:
+        ctx.violation("C02.3", f"{G}:COMMENT:stops", GP, f"COMMENT can swallow the line break: witness {eats!r}", cm.n_states())
+    nonhash = witness_common(cm, Rx(r"[^#](?:.|\n)*"))
+    if nonhash is not None:
+        ctx.violation("C02.3", f"{G}:COMMENT:hash", GP, f"COMMENT can start with something other than '#': {nonhash!r}")
+    wit = includes(ws, Rx(r"[ \t]+"))
+    if wit is None:
+        ctx.holds("C02.3", f"{G}:WS_INLINE", GP, "WS_INLINE ⊇ runs of blanks and tabs", ws.n_states())
+    else:
+        ctx.violation("C02.3", f"{G}:WS_INLINE", GP, f"WS_INLINE no longer matches {wit!r}", ws.n_states())
+    ctx.count("dfa_states", nl.n_states() + cm.n_states() + ws.n_states())
+
+
+def p4(ctx, ss):
+    gf = grammar_facts(ss, G)
+    layout = set(LAYOUT_T) | set(gf.ignore)
+    n = 0
+    for name, t in gf.terminals.items():
+        if name in layout or name == "MODEL_NAME":
+            continue
+        n += 1
+        r = Rx(t.pattern.to_regexp())
+        bad = sorted(c for c in r.charset() if c in LAYOUT_CHARS)
+        k = f"{G}:{name}:chars"
+        if bad:
+            ctx.violation("C02.4", k, GP, f"terminal {name} can contain the layout character(s) {bad}: spacing/comment/separator edits change tokens", r.n_states())
+        else:
+            ctx.holds("C02.4", k, GP, f"{name} contains no blank, tab, CR, LF, '#', ',' or ';'", r.n_states())
+    ctx.count("terminals", n)
+    ctx.floor("C02.4", "tree-visible terminals", n, 25)
+    # published model names (the MODEL_NAME alternation is assembled from this table)
+    tree = ss.tree(ENUMS)
+    names = None
+    for st in tree.body:
+        if isinstance(st, ast.Assign) and any(isinstance(t, ast.Name) and t.id == "known_decay_models" for t in st.targets):
+            names = ast.literal_eval(st.value)
+    if names is None:
+        raise AnchorMissing("known_decay_models literal not found")
+    bad = [m for m in names if any(c in m for c in LAYOUT_CHARS)]
+    if bad:
+        ctx.violation("C02.4", f"{ENUMS}:known_decay_models:chars", f"src/decaylanguage/{ENUMS}", f"model name(s) {bad[:3]} contain layout characters")
+    else:
+        ctx.holds("C02.4", f"{ENUMS}:known_decay_models:chars", f"src/decaylanguage/{ENUMS}", f"none of the {len(names)} published model names contains a layout character", len(names))
+
+
+def p5(ctx, ss):
+    gf = grammar_facts(ss, G)
+    if "start" not in gf.rule_defs:
+        raise AnchorMissing("rule start not found")
+    alpha = SymAlphabet()
+    n, l, e = alpha.letter("T:_NEWLINE"), alpha.letter("N:line"), alpha.letter('L:"End"')
+    rx = ebnf_regex(gf.rule_defs["start"][1], alpha)
+    ref = f"{n}*(?:{l}{n}+)*(?:{e}{n}+)?"
+    wit = includes(Rx(rx), Rx(ref))
+    inv = {v: kk for kk, v in alpha.map.items()}
+    if wit is None:
+        ctx.holds("C02.5", f"{G}:start", GP, "start ⊇ _NEWLINE* (line _NEWLINE+)* (\"End\" _NEWLINE+)?  — leading blank lines and a final End line are accepted", 3)
+    else:
+        ws = " ".join(inv.get(c, c).split(":", 1)[1] for c in wit) or "<empty file>"
+        ctx.violation("C02.5", f"{G}:start", GP, f"start rejects the statement sequence [{ws}] (leading blank lines / final End line / empty input)")
+    # `line` must be inlined (statements are direct children of start) and End must not become a tree
+    ok = "line" not in gf.tree_names
+    (ctx.holds if ok else ctx.violation)("C02.5", f"{G}:line-inlined", GP,
+                                          "`?line` is inlined: statements are direct children of start" if ok else "`line` now creates a node of its own")
+
+
+def _codec(name: str) -> str | None:
+    try:
+        return codecs.lookup(name).name
+    except LookupError:
+        return None
+
+
+def p6(ctx, ss):
+    ff, flow = fn(ss, DEC, "DecFileParser.__init__")
+    gf = grammar_facts(ss, G)
+    opens = [c for c in pf.calls_in(ff.node) if (isinstance(c.func, ast.Attribute) and c.func.attr in ("open", "read_text"))
+             or (isinstance(c.func, ast.Name) and c.func.id == "open")]
+    if not opens:
+        raise AnchorMissing("__init__: no open() call found")
+    ctx.count("call_sites", len(opens))
+    # (c) does any ignored / newline terminal accept U+FEFF?
+    tolerant = [t for t in list(gf.ignore) + ["_NEWLINE"] if Rx(gf.term_regex(t)).accepts("\ufeff")]
+    for c in opens:
+        enc = None
+        for kw in c.keywords:
+            if kw.arg == "encoding" and isinstance(kw.value, ast.Constant):
+                enc = kw.value.value
+        k = ckey(ff, None, "bom")
+        if enc is not None and _codec(enc) == "utf-8-sig":
+            ctx.holds("C02.6", k, where(ff, c), f"input files are opened with the BOM-stripping codec {enc!r}", 1)
+            continue
+        # (b) the text written to the stream is BOM-stripped
+        writes = [w for w in pf.calls_in(ff.node) if isinstance(w.func, ast.Attribute) and w.func.attr == "write" and w.args
+                  and not isinstance(w.args[0], ast.Constant)]
+        stripped = bool(writes) and all("\\ufeff" in ascii(flow.text(w.args[0])) and "strip" in flow.text(w.args[0]) for w in writes)
+        if stripped:
+            ctx.holds("C02.6", k, where(ff, c), "every line written to the parsed text is stripped of U+FEFF", len(writes))
+        elif tolerant:
+            ctx.holds("C02.6", k, where(ff, c), f"terminal(s) {tolerant} accept U+FEFF, so a BOM is skipped by the lexer", len(tolerant))
+        else:
+            ctx.violation("C02.6", k, where(ff, c),
+                          f"file opened with encoding={enc!r}: a leading UTF-8 BOM is decoded to U+FEFF, written unstripped into the parsed text, "
+                          "and no ignored terminal accepts it (UnexpectedCharacters at line 1)")
+
+
+def p7(ctx, ss):
+    ff, flow = fn(ss, DEC, "DecFileParser.__init__")
+    writes = [w for w in pf.calls_in(ff.node) if isinstance(w.func, ast.Attribute) and w.func.attr == "write" and w.args]
+    line_w = [w for w in writes if not isinstance(w.args[0], ast.Constant)]
+    nl_w = [w for w in writes if isinstance(w.args[0], ast.Constant) and isinstance(w.args[0].value, str) and "\n" in w.args[0].value]
+    if not line_w:
+        ctx.violation("C02.7", ckey(ff, None, "line-write"), where(ff, ff.node), "no line of the input files is ever written to the parsed text")
+        return
+    for w in line_w:
+        st = stmt_of(ff, w)
+        loops = enclosing(ff, w, (ast.For,))
+        if len(loops) < 2:
+            raise AnchorMissing("line write is not inside the per-file / per-line loops")
+        inner, outer = loops[0], loops[-1]
+        # the written object is the whole line of the open file
+        a = flow.expand(w.args[0])
+        whole = isinstance(a, ast.Call) and isinstance(a.func, ast.Name) and a.func.id == "__elem__"
+        bom_stripped = (not whole) and isinstance(a, ast.Call) and isinstance(a.func, ast.Attribute) and a.func.attr in ("lstrip", "replace", "removeprefix") \
+            and "\\ufeff" in ascii(txt(a)) and isinstance(a.func.value, ast.Call) and txt(a.func.value.func) == "__elem__"
+        k = ckey(ff, None, "line-write")
+        if not (whole or bom_stripped):
+            ctx.violation("C02.7", k + " :: what", where(ff, w), f"what is written is `{txt(a)[:100]}`, not the line read from the file")
+        else:
+            ctx.holds("C02.7", k + " :: what", where(ff, w), "the line read from the file is written unchanged", 1)
+        conds = [c for c in guards.path_conditions(ff.node, st, stop_at=inner) if c[0] == "if"]
+
+        def starts(e, word):
+            return isinstance(e, ast.Call) and isinstance(e.func, ast.Attribute) and e.func.attr == "startswith" and len(e.args) == 1 \
+                and isinstance(e.args[0], ast.Constant) and e.args[0].value == word and "strip" in txt(e.func.value)
+
+        def mk(a_val, b_val):
+            def atom(e):
+                if starts(e, "End"):
+                    return a_val
+                if starts(e, "Enddecay"):
+                    return b_val
+                return None
+            return atom
+        cases = {"ordinary line": (mk(False, False), True), "Enddecay line": (mk(True, True), True), "lone End line": (mk(True, False), False)}
+        for label, (atom, want) in cases.items():
+            r = guards.reachable_under(conds, atom, flow)
+            kk = k + f" :: {label}"
+            if want and r is True:
+                ctx.holds("C02.7", kk, where(ff, w), f"{label}: definitely written", len(conds) + 1)
+            elif (not want) and r is False:
+                ctx.holds("C02.7", kk, where(ff, w), f"{label}: definitely dropped", len(conds) + 1)
+            elif want:
+                ctx.violation("C02.7", kk, where(ff, w), f"{label}: may be dropped (the write additionally depends on `{'; '.join(txt(c[1])[:60] for c in conds)}`)")
+            else:
+                ctx.violation("C02.7", kk, where(ff, w), f"{label}: may be written into the parsed text (a second file would follow an End statement)")
+        # line break per file
+        good = False
+        for nw in nl_w:
+            nloops = enclosing(ff, nw, (ast.For,))
+            if nloops and nloops[-1] is outer and inner not in nloops:
+                hdr = flow.cfg.node_of(outer)
+                node = flow.cfg.node_of(stmt_of(ff, nw))
+                lo, hi, _ = flow.cfg.count_per_iteration(hdr, lambda n, node=node: n.id == node)
+                inner_node = flow.cfg.node_of(inner)
+                if lo >= 1 and flow.cfg.dominates(inner_node, node):
+                    good = True
+                    ctx.holds("C02.7", ckey(ff, None, "file-break"), where(ff, nw), "a line break is written after each file on every path", 3)
+        if not good:
+            ctx.violation("C02.7", ckey(ff, None, "file-break"), where(ff, outer),
+                          "no line break is written between consecutive input files: the last line of one file runs into the first of the next")
+        # the per-file loop covers all given files in order
+        it = flow.expand(outer.iter)
+        t = txt(it)
+        if t in ("map(Path, list(filenames))", "map(Path, filenames)", "list(filenames)", "filenames", "map(Path, self._dec_file_names)"):
+            ctx.holds("C02.7", ckey(ff, None, "all-files"), where(ff, outer), f"all files are read, in the order given (`{t}`)", 1)
+        else:
+            ctx.violation("C02.7", ckey(ff, None, "all-files"), where(ff, outer), f"the file loop iterates `{t[:100]}`: not all files in the order given")
+
+
+def p8(ctx, ss):
+    # who may write _dec_file
+    writers = []
+    for m in pf.all_modules(ss):
+        mf = pf.module_facts(ss, m)
+        for q, f_ in mf.funcs.items():
+            for n in pf.walk_no_nested(f_.node):
+                if isinstance(n, (ast.Assign, ast.AugAssign, ast.AnnAssign)):
+                    ts = n.targets if isinstance(n, ast.Assign) else [n.target]
+                    for t in ts:
+                        if isinstance(t, ast.Attribute) and t.attr == "_dec_file":
+                            writers.append((f_, n))
+    allowed = {"DecFileParser.__init__", "DecFileParser.from_string"}
+    for f_, n in writers:
+        k = ckey(f_, None, "writes-_dec_file")
+        if f_.module == DEC and f_.qualname in allowed:
+            ctx.holds("C02.8", k, where(f_, n), f"{f_.qualname} sets the text to be parsed", 1)
+        else:
+            ctx.violation("C02.8", k, where(f_, n), f"{f_.qualname} rewrites the text to be parsed (only the two constructors may)")
+    ctx.floor("C02.8", "writers of _dec_file", len(writers), 2)
+    # from_string stores the argument unchanged
+    ff, flow = fn(ss, DEC, "DecFileParser.from_string")
+    st = [n for f_, n in writers if f_.qualname == "DecFileParser.from_string"]
+    if not st:
+        raise AnchorMissing("from_string does not set _dec_file")
+    v = flow.expand(st[0].value)
+    t = txt(v)
+    if t in ("filecontent", "StringIO(filecontent).read()", "str(filecontent)"):
+        ctx.holds("C02.8", ckey(ff, None, "verbatim"), where(ff, st[0]), "from_string stores the given text verbatim", 1)
+    else:
+        ctx.violation("C02.8", ckey(ff, None, "verbatim"), where(ff, st[0]), f"from_string stores `{t[:100]}`, not the given text")
+    # __init__ stores exactly what was written to the stream
+    ff, flow = fn(ss, DEC, "DecFileParser.__init__")
+    sts = [n for f_, n in writers if f_.qualname == "DecFileParser.__init__" and not (isinstance(n.value, ast.Constant) and n.value.value is None)]
+    ok = len(sts) == 1 and txt(flow.expand(sts[0].value)) in ("StringIO().read()", "StringIO().getvalue()")
+    if ok and "read" in txt(sts[0].value):
+        # read() needs the rewind
+        seeks = [c for c in pf.calls_in(ff.node) if isinstance(c.func, ast.Attribute) and c.func.attr == "seek"]
+        ok = bool(seeks) and flow.cfg.dominates(flow.cfg.node_of(stmt_of(ff, seeks[0])), flow.cfg.node_of(sts[0]))
+    (ctx.holds if ok else ctx.violation)("C02.8", ckey(ff, None, "stream"), where(ff, ff.node),
+                                          "__init__ stores the whole content of the stream the lines were written to" if ok
+                                          else "__init__ does not store the whole (rewound) stream content")
